@@ -28,6 +28,8 @@ struct Case {
     float: Option<String>,
     #[serde(default)]
     all_rows_single: bool,
+    #[serde(default)]
+    extreme: bool,
 }
 
 fn run_case(c: &Case) -> Result<sweep::Rep, String> {
@@ -51,7 +53,7 @@ fn run_case(c: &Case) -> Result<sweep::Rep, String> {
     let reg = registry::registry();
     let ent = reg.iter().find(|e| e.name == c.entry).ok_or_else(|| format!("unknown registry entry {}", c.entry))?;
     let only: Option<sweep::Only> = c.only.clone().and_then(|v| serde_json::from_value(v).ok());
-    let args = registry::Args { instance: c.instance, max_len: c.max_len, only };
+    let args = registry::Args { instance: c.instance, max_len: c.max_len, only, extreme: c.extreme };
     (ent.run)(&args, &mut rep).map_err(|e| format!("fitting {} instance {} failed: {}", c.entry, c.instance, e))?;
     Ok(rep)
 }
@@ -110,9 +112,13 @@ fn main() {
     let mut cases: Vec<Case> = Vec::new();
     for e in &reg {
         for inst in 0..instances {
-            cases.push(Case { entry: e.name.to_string(), instance: inst, max_len, only: None, family: None, n: 0, float: None, all_rows_single: false });
+            cases.push(Case { entry: e.name.to_string(), instance: inst, max_len, only: None, family: None, n: 0, float: None, all_rows_single: false, extreme: false });
+            if e.extreme_ok {
+                cases.push(Case { entry: e.name.to_string(), instance: inst, max_len, only: None, family: None, n: 0, float: None, all_rows_single: false, extreme: true });
+            }
         }
     }
+    ctx.extra("extreme_pool_cases", json!(cases.iter().filter(|c| c.extreme).count()));
     let n_pool_cases = cases.len();
     // large-batch / layout / f32 family
     let sizes: Vec<usize> = if ctx.quick() { vec![1025] } else { vec![1025, 4097] };
@@ -122,13 +128,13 @@ fn main() {
                 if f == "f32" && !e.f32_too {
                     continue;
                 }
-                cases.push(Case { entry: e.name.to_string(), instance: 0, max_len: 0, only: None, family: Some("large".into()), n, float: Some(f.into()), all_rows_single: ctx.thorough() });
+                cases.push(Case { entry: e.name.to_string(), instance: 0, max_len: 0, only: None, family: Some("large".into()), n, float: Some(f.into()), all_rows_single: ctx.thorough(), extreme: false });
             }
         }
     }
     let n_large_cases = cases.len() - n_pool_cases;
     for e in large::fit_registry() {
-        cases.push(Case { entry: e.name.to_string(), instance: 0, max_len: 0, only: None, family: Some("fit_layout".into()), n: 0, float: None, all_rows_single: false });
+        cases.push(Case { entry: e.name.to_string(), instance: 0, max_len: 0, only: None, family: Some("fit_layout".into()), n: 0, float: None, all_rows_single: false, extreme: false });
     }
     ctx.extra("pool_family_cases", json!(n_pool_cases));
     ctx.extra("large_family_cases", json!(n_large_cases));
@@ -177,7 +183,7 @@ fn main() {
             match c.family.as_deref() {
                 Some("large") => format!("large:{}:{}:n{}", c.entry, c.float.clone().unwrap_or_default(), c.n),
                 Some(f) => format!("{}:{}", f, c.entry),
-                None => format!("{}#{}", c.entry, c.instance),
+                None => format!("{}#{}{}", c.entry, c.instance, if c.extreme { "#extreme" } else { "" }),
             },
             json!({"evaluations": rep.evals, "nontrivial": rep.nontrivial, "batches": rep.batches, "float_cells": rep.float_cells,
                    "float_cells_not_bit_identical": rep.float_cells - rep.float_bit_identical, "max_dev_in_tol_units": rep.max_dev_in_tol_units,
